@@ -624,6 +624,84 @@ func init() {
 			}, nil
 		}
 	}
+	// C09: an extension profile with 0..16 vendor claims present (map sizes 7..26, around the one-byte head boundary)
+	Scenarios["c09.ext-wide"] = func() (choice.Scenario, func() any) {
+		return func(c *choice.Ctx) {
+			extras := c.Choose("vendor-claims-present", 17)
+			base := c.Choose("base-claims", 2) // minimal / all optionals
+			a := *c02Claims()[map[int]int{0: 0, 1: 3}[base]]
+			a.Canon, a.Profile = ExtWideName, sp(ExtWideName)
+			x, err := realise(&a)
+			if err != nil {
+				panic(choice.HarnessError{Msg: err.Error()})
+			}
+			w := x.(*ExtWideClaims)
+			w.SetExtras(extras)
+			tag := fmt.Sprintf("ext-wide:%d-vendor-claims:base%d", extras, base)
+			encStats.StateStr(tag)
+			c09Valid(c, encStats, &a, x, tag)
+			// the vendor claims survive the round trip as well
+			if enc, err := psatoken.EncodeClaimsToCBOR(x); err == nil {
+				if y, err := psatoken.DecodeClaimsFromCBOR(enc); err == nil {
+					if yw, ok := y.(*ExtWideClaims); !ok || yw.Extras() != w.Extras() {
+						c.Failf("C09:identity:"+tag+":vendor-claims", "vendor claims differ after decode(encode(x)): %T", y)
+					}
+				}
+			}
+		}, nil
+	}
+	// C09: a decoded claims-set changed through what its getters hand out / its setters, then round-tripped
+	for kind := 0; kind < 2; kind++ {
+		kind := kind
+		Scenarios[fmt.Sprintf("c09.decode-change-roundtrip.%s", kindNames[kind])] = func() (choice.Scenario, func() any) {
+			return func(c *choice.Ctx) {
+				a := genValid(c, kind, false)
+				how := 2 + c.Choose("decoded-from", 2)
+				x, err := buildValid(a, how)
+				if err != nil {
+					return
+				}
+				if _, err := psatoken.EncodeClaimsToCBOR(x); err != nil {
+					return
+				}
+				what := c.Choose("change", 3)
+				switch what {
+				case 0:
+					if len(a.Comps) == 0 {
+						return
+					}
+					scs, err := x.GetSoftwareComponents()
+					if err != nil || len(scs) != len(a.Comps) {
+						return
+					}
+					i := len(scs) - 1
+					if scs[i].SetVersion("changed-9.9") != nil || scs[i].SetMeasurementValue(pat(64, 0xd7)) != nil {
+						return
+					}
+					nc := *a.Comps[i]
+					nc.Version, nc.MVal = sp("changed-9.9"), bp(pat(64, 0xd7))
+					a.Comps = append(append([]*refmodel.Comp{}, a.Comps[:i]...), &nc)
+				case 1:
+					if x.SetNonce(pat(48, 0xd8)) != nil || x.SetClientID(-9) != nil {
+						return
+					}
+					a.Nonces, a.ClientID = [][]byte{pat(48, 0xd8)}, i32p(-9)
+				case 2:
+					if x.SetSoftwareComponents([]psatoken.ISwComponent{realComp(okComp(0xd9, 48)), realComp(fullComp(0xda, 32))}) != nil {
+						return
+					}
+					a.Comps, a.CompsNil, a.NoMeas = []*refmodel.Comp{okComp(0xd9, 48), fullComp(0xda, 32)}, false, nil
+				}
+				tag := fmt.Sprintf("%s:decode-change-roundtrip:%d", kindNames[kind], what)
+				encStats.StateStr(tag + a.String())
+				if g, w := getterVector(x), expectedVector(a); g != w {
+					c.Failf("C09:changed-object-getters:"+tag, "after the change the getters are\n got  %s\n want %s", g, w)
+					return
+				}
+				c09Valid(c, encStats, a, x, tag)
+			}, nil
+		}
+	}
 	// component lists around the array-head boundaries (23/24, 255/256)
 	for _, prop := range []string{"C09", "C10"} {
 		prop := prop
@@ -695,6 +773,12 @@ func init() {
 			if prop == "C12" {
 				exploreChoiceOpts(r, "c12.after-prior-calls", 2, dl, 1)
 			} else {
+				if prop == "C09" {
+					exploreChoice(r, "c09.ext-wide", -1, dl)
+					for kind := 0; kind < 2; kind++ {
+						exploreChoice(r, fmt.Sprintf("c09.decode-change-roundtrip.%s", kindNames[kind]), b, dl)
+					}
+				}
 				exploreChoiceOpts(r, registerAfterPriorCalls(lp+".valid.P1"), 2, dl, 1)
 				exploreChoiceOpts(r, registerAfterPriorCalls(lp+".valid.P2"), 2, dl, 1)
 				exploreChoice(r, lp+".many-components", -1, dl)
